@@ -127,6 +127,39 @@ type Term struct {
 	id   int
 	vs   []uint64 // sorted set of possible values (nil = unknown); BV sorts only
 	fp   bool     // contains floating-point subterm
+	fv   []*Term  // free variables (computed lazily)
+	fvOK bool
+}
+
+// freeVars returns the variables occurring in t (shared slice; do not modify).
+func (t *Term) freeVars() []*Term {
+	if t.fvOK {
+		return t.fv
+	}
+	switch t.op {
+	case OpConst:
+	case OpVar:
+		t.fv = []*Term{t}
+	default:
+		var acc []*Term
+		for _, a := range t.a {
+			for _, v := range a.freeVars() {
+				dup := false
+				for _, w := range acc {
+					if w == v {
+						dup = true
+						break
+					}
+				}
+				if !dup {
+					acc = append(acc, v)
+				}
+			}
+		}
+		t.fv = acc
+	}
+	t.fvOK = true
+	return t.fv
 }
 
 type tkey struct {
